@@ -34,7 +34,7 @@ mod a {
     )* } } }
     sc!(bool, int32, int64, uint32, uint64, sint32, sint64, fixed32, fixed64, sfixed32, sfixed64, float, double);
     macro_rules! bl { ($($n:ident, $api:ident, $len:expr);*) => { paste! { $(
-        pub fn $n<const W: u8>() { pb::pb_blob::<W, {pb::$api}, $len, 2047>() }
+        pub fn $n<const W: u8>() { pb::pb_blob::<W, {pb::$api}, $len, 9>() }
     )* } } }
     bl!(string0, A_STRING, 0; string2, A_STRING, 2; string3, A_STRING, 3;
         faststr0, A_FASTSTR, 0; faststr2, A_FASTSTR, 2;
@@ -60,27 +60,67 @@ macro_rules! scalars { ($($m:ident),*) => { paste! { $(
     inst2!(t, [<$m _anytag>], 17, a::[<$m _full>]);
 )* } } }
 scalars!(bool, int32, int64, uint32, uint64, sint32, sint64, fixed32, fixed64, sfixed32, sfixed64, float, double);
-inst2!(t, string0, 17, a::string0);
-inst2!(q, string2, 17, a::string2);
-inst2!(t, string3, 17, a::string3);
-inst2!(t, faststr0, 17, a::faststr0);
-inst2!(q, faststr2, 17, a::faststr2);
-inst2!(t, bytes0, 17, a::bytes0);
-inst2!(q, bytes2, 17, a::bytes2);
-inst2!(t, bytes3, 17, a::bytes3);
-inst2!(q, vec2, 17, a::vec2);
-inst2!(q, rep_int32_unpacked, 33, a::rep_int32_unpacked);
-inst2!(q, rep_int32_packed, 33, a::rep_int32_packed);
-inst2!(t, rep_sint64_unpacked, 33, a::rep_sint64_unpacked);
-inst2!(t, rep_sint64_packed, 33, a::rep_sint64_packed);
-inst2!(t, rep_bool_unpacked, 33, a::rep_bool_unpacked);
-inst2!(t, rep_bool_packed, 33, a::rep_bool_packed);
-inst2!(t, rep_fixed32_unpacked, 33, a::rep_fixed32_unpacked);
-inst2!(q, rep_fixed32_packed, 33, a::rep_fixed32_packed);
-inst2!(t, rep_double_unpacked, 33, a::rep_double_unpacked);
-inst2!(t, rep_double_packed, 33, a::rep_double_packed);
-inst2!(q, message, 41, a::message);
-inst2!(q, group, 41, a::group);
-inst2!(t, top, 41, a::top);
-inst2!(t, lendelim, 41, a::lendelim);
-inst2!(q, btree_map, 41, a::btree_map);
+inst2!(t, string0, 12, a::string0);
+inst2!(q, string2, 12, a::string2);
+inst2!(t, string3, 12, a::string3);
+inst2!(t, faststr0, 12, a::faststr0);
+inst2!(q, faststr2, 12, a::faststr2);
+inst2!(t, bytes0, 12, a::bytes0);
+inst2!(q, bytes2, 12, a::bytes2);
+inst2!(t, bytes3, 12, a::bytes3);
+inst2!(q, vec2, 12, a::vec2);
+inst2!(t, rep_int32_unpacked, 12, a::rep_int32_unpacked);
+inst2!(t, rep_int32_packed, 12, a::rep_int32_packed);
+inst2!(t, rep_sint64_unpacked, 12, a::rep_sint64_unpacked);
+inst2!(t, rep_sint64_packed, 12, a::rep_sint64_packed);
+inst2!(t, rep_bool_unpacked, 12, a::rep_bool_unpacked);
+inst2!(t, rep_bool_packed, 12, a::rep_bool_packed);
+inst2!(t, rep_fixed32_unpacked, 12, a::rep_fixed32_unpacked);
+inst2!(q, rep_fixed32_packed, 12, a::rep_fixed32_packed);
+inst2!(t, rep_double_unpacked, 12, a::rep_double_unpacked);
+inst2!(t, rep_double_packed, 12, a::rep_double_packed);
+inst2!(t, message, 12, a::message);
+inst2!(t, group, 12, a::group);
+inst2!(t, top, 12, a::top);
+inst2!(t, lendelim, 12, a::lendelim);
+inst2!(t, btree_map, 12, a::btree_map);
+// decomposed (w)/(r) harnesses, see pb.rs
+#[cfg(kani)]
+mod d {
+    use super::*;
+    pub fn msg_w<const W: u8>() { pb::pb_message_w::<W, {pb::M_MESSAGE}>() }
+    pub fn group_w<const W: u8>() { pb::pb_message_w::<W, {pb::M_GROUP}>() }
+    pub fn top_w<const W: u8>() { pb::pb_message_w::<W, {pb::M_TOP}>() }
+    pub fn lendelim_w<const W: u8>() { pb::pb_message_w::<W, {pb::M_LENDELIM}>() }
+    pub fn rep_unpacked_w<const W: u8>() { pb::pb_rep_int32_w::<W, false>() }
+    pub fn rep_packed_w<const W: u8>() { pb::pb_rep_int32_w::<W, true>() }
+    pub fn map_w<const W: u8>() { pb::pb_btree_map_w::<W>() }
+}
+inst2!(q, dec_message_w, 12, d::msg_w);
+inst2!(q, dec_group_w, 12, d::group_w);
+inst2!(t, dec_top_w, 12, d::top_w);
+inst2!(t, dec_lendelim_w, 12, d::lendelim_w);
+inst2!(q, dec_rep_int32_unpacked_w, 12, d::rep_unpacked_w);
+inst2!(q, dec_rep_int32_packed_w, 12, d::rep_packed_w);
+inst2!(q, dec_btree_map_w, 12, d::map_w);
+macro_rules! rinst {
+    ($tier:ident, $name:ident, $unw:expr, $($call:tt)*) => { paste! {
+        pproof!{ #[kani::unwind($unw)] fn [<c05_ $tier _ $name>]() { $($call)*() } }
+        pproof!{ #[kani::unwind($unw)] fn [<c06_ $tier _ $name>]() { $($call)*() } }
+    }};
+}
+rinst!(t, dec_message_r1, 12, pb::pb_message_r::<{pb::M_MESSAGE}, 1, 0>);
+rinst!(t, dec_message_r2, 12, pb::pb_message_r::<{pb::M_MESSAGE}, 2, 2>);
+rinst!(t, dec_message_r10, 12, pb::pb_message_r::<{pb::M_MESSAGE}, 10, 1>);
+rinst!(t, dec_group_r1, 12, pb::pb_message_r::<{pb::M_GROUP}, 1, 1>);
+rinst!(t, dec_group_r10, 12, pb::pb_message_r::<{pb::M_GROUP}, 10, 0>);
+rinst!(t, dec_top_r5, 12, pb::pb_message_r::<{pb::M_TOP}, 5, 1>);
+rinst!(q, dec_lendelim_r3, 12, pb::pb_message_r::<{pb::M_LENDELIM}, 3, 3>);
+rinst!(t, dec_rep_int32_packed_r_1_2, 12, pb::pb_rep_int32_r::<true, 1, 2>);
+rinst!(t, dec_rep_int32_packed_r_10_1, 12, pb::pb_rep_int32_r::<true, 10, 1>);
+rinst!(t, dec_rep_int32_unpacked_r_2_10, 12, pb::pb_rep_int32_r::<false, 2, 10>);
+rinst!(t, dec_rep_int32_unpacked_r_5_5, 12, pb::pb_rep_int32_r::<false, 5, 5>);
+rinst!(q, dec_btree_map_r1, 12, pb::pb_btree_map_r::<1, 1>);
+rinst!(t, dec_btree_map_r10, 12, pb::pb_btree_map_r::<10, 0>);
+rinst!(t, dec_btree_map_r2_keyonly, 12, pb::pb_btree_map_r::<2, 2>);
+rinst!(q, dec_btree_map_r1_valueonly, 12, pb::pb_btree_map_r::<1, 3>);
